@@ -514,7 +514,9 @@ def r4(ctx):
             ps = ctx.prog.fns[name]["params"]
             n += 1
             problems = []
-            for state in ("empty/reader-ok", "empty/reader-fails", "filled"):
+            # ("empty/others-known": the other memos already hold this entry's lstat record - an empty regular file by it -:
+            # a content column is read from the content, never inferred from the stat record; /proc files have length 0)
+            for state in ("empty/reader-ok", "empty/reader-fails", "filled", "empty/others-known"):
                 reads = []
 
                 def call(node, recv, args, it, env, state=state, reads=reads):
@@ -532,10 +534,20 @@ def r4(ctx):
                         if rty.startswith("core::result::Result<"):
                             return (interp.V("Result::Ok", ["FRESH"]),)
                         return ("FRESH",)
+                    if isinstance(recv, interp.Opaque) and recv.what == "LSTAT" and node.get("k") == "MCall":
+                        m_ = node.get("m")
+                        if m_ in ("is_file",):
+                            return (True,)
+                        if m_ in ("is_dir", "is_symlink"):
+                            return (False,)
+                        if m_ in ("len", "size", "blocks"):
+                            return (0,)
                     if isinstance(recv, interp.Opaque) and node.get("k") == "MCall":
                         return (interp.Opaque("%s.%s()" % (recv.what, node.get("m"))),)      # entry.path() and the like
                     return None
                 selfv = interp.LazySelf({what + "_set": state == "filled", what: "KEPT" if state == "filled" else "STALE"})
+                if state == "empty/others-known" and what != "file_metadata":
+                    selfv["file_metadata_set"], selfv["file_metadata"] = True, interp.some(interp.Opaque("LSTAT"))
                 env = {p_["id"]: interp.Opaque(p_.get("name") or "?") for p_ in ps}
                 env[ps[0]["id"]] = selfv
                 try:
@@ -553,7 +565,7 @@ def r4(ctx):
                         problems.append("(%s) the flag is raised but `%s` keeps what was stored before (%r): an entry that cannot be read shows the previous entry's value" % (state, what, selfv[what]))
                     if not reads:
                         problems.append("(%s) nothing is read" % state)
-                    if state == "empty/reader-ok" and "FRESH" not in repr(selfv[what]):
+                    if state in ("empty/reader-ok", "empty/others-known") and "FRESH" not in repr(selfv[what]):
                         problems.append("(%s) the value read is not stored: `%s` = %r" % (state, what, selfv[what]))
             ctx.obligation(not problems)
             if problems:
